@@ -104,6 +104,8 @@ def main():
         n_ok = sum(1 for i in R.instances if i["ok"])
         print("[%s/%s] config=%s bodies=%d sites=%d instances=%d discharged=%d violations=%d (driver %.1fs)"
               % (prop, tier, cfg, len(R.bodies), R.sites, len(R.instances), n_ok, len(R.violations), dt))
+    if selftest is not None:
+        print("[%s/%s] self-test: %s" % (prop, tier, json.dumps({k: v for k, v in selftest.items() if k != "results"})))
     for v in known_hit:
         print("KNOWN-FINDING: property=%s %s [%s] at %s" % (prop, open_keys[v["key"]].get("what", v["msg"]), v["key"], v["where"]))
     for n, v in enumerate(all_viol):
